@@ -265,7 +265,7 @@ impl Property for CpuProp {
     }
     fn runs(&self, tier: Tier) -> u64 {
         match (self.0, tier) {
-            (_, Tier::Quick) => 3_000,
+            (_, Tier::Quick) => 30_000,
             (Which::C01, Tier::Thorough) => 3_000_000,
             (Which::C02, Tier::Thorough) => 2_000_000,
             (Which::C03, Tier::Thorough) => 2_000_000,
